@@ -467,3 +467,20 @@ Proof. intros c rest E. unfold pc_read. rewrite E. reflexivity. Qed.
 
 Print Assumptions C12_palette_alloc_refused.
 Print Assumptions C12_palette_alloc_bounded.
+
+(* ---- last wave: the block-state save constructor *)
+(* the translated NewStatesPaletteContainerWithData - calcBitsPerValue, the switch 0 / 1..4 (n = 4,
+   withCap(pat, 1<<n)) / 5..8 (withCap, the loop `for i, v := range pat { ids[v] = i }` proved by
+   induction to build the last-index view of pat, hashPalette{ids, values, bits}) / default
+   (resolveIndirect for more than 1<<8 entries), NewBitStorage(statesCfg{}.bits(n), length, data) with
+   its length check - IS pc_with_data, for every length, long array and palette slice of any capacity,
+   on every exit (each panic included).  This is the constructor level.ChunkFromSave uses. *)
+Theorem C12_states_with_data_translated : forall gs gb n data pat capp,
+  C12_skel_set.new_result
+    (run_g (cfg_env gs gb) no_set C12gen.pal_NewStatesPaletteContainerWithData VNil [VZ n; VData data; VSlice pat capp])
+  = Some (pc_with_data (mkCfg KStates gs) n data pat).
+Proof.
+  intros. rewrite C12_expected.NewStatesPaletteContainerWithData_skel_ok. apply C12_skel_data.tie_states_with_data.
+Qed.
+
+Print Assumptions C12_states_with_data_translated.
